@@ -262,6 +262,10 @@ func runC04(c *core.Ctx) {
 		countNilElems(res, reflect.ValueOf(in), 0)
 	}
 
+	if c.Shard == 0 {
+		c04NonStructCollections(res)
+	}
+
 	// (b) synthesised types, deeper than C02's
 	seq := 0
 	plan := tagPlan{TagNames: []string{"valid"}, Style: gen.MsgUnique, MaxRules: 2, seq: &seq}
@@ -276,6 +280,30 @@ func runC04(c *core.Ctx) {
 		v := tunedFill(rng, t, "valid", 0.2)
 		res.Count("structof_cases")
 		c04Case(res, "structof", ptrTo(v).Interface(), i)
+	}
+}
+
+// c04NonStructCollections: top-level slices / arrays / maps whose elements are not structs hold no
+// reachable rule at all: the call returns nil (collections of collections, nil pointers and nil
+// elements included).
+func c04NonStructCollections(res *core.Result) {
+	one := 1
+	var np *int
+	ins := []interface{}{
+		[]int{1, 2, 3}, []string{"a", ""}, map[string]int{"a": 1, "b": 0}, map[int]string{1: "x"}, [2]float64{1, 2}, []*int{&one, nil, np},
+		[][]int{{1}, nil}, map[string][]string{"k": {"v"}}, []interface{}{1, "a", nil}, map[string]interface{}{"k": 1, "n": nil}, []*C04Leaf{nil, nil}, map[string]*C04Node{"gone": nil},
+		&[]int{4}, []**int{}, [0]int{}, []bool{true, false}, []C04Key{1}, map[C04Key]int{2: 2},
+	}
+	for i, in := range ins {
+		in := in
+		out := drive.Call(func() error { return valid.Struct(in) })
+		res.Eval()
+		res.Count("top_level_collections_of_non_structs")
+		res.DistinctEnum(1)
+		if out.Panic != "" || !out.Nil {
+			res.Violate("C04|top-collection-of-non-structs", fmt.Sprintf("Struct(%T %+v) returned %s; no rule is reachable (the elements are not structs), the call must return nil", in, in, out),
+				map[string]interface{}{"case": i, "type": fmt.Sprintf("%T", in), "library_returned": out.String()})
+		}
 	}
 }
 
